@@ -21,6 +21,9 @@ def to_scenario(sid, hist, rng, with_moves):
                 steps.append({"k": "call", "kind": kind, "h": h["h"], "key": KEYS[kind][h["key"]]})
             if rng.random() < 0.3:
                 steps.append({"k": "sleep", "ms": rng.choice([500, 2000, 5000])})
+        elif k == "pair":
+            kind = rng.choice(["authn", "authz"])
+            steps.append({"k": "pair", "kind": kind, "h": h["h"], "h2": h["c"], "key": KEYS[kind][h["key"]]})
         elif k == "tick":
             steps.append({"k": "sleep", "ms": TTL_OK + 1})
         elif k == "answer":
@@ -54,6 +57,10 @@ def main(tier, replay):
             if mc.violation:
                 raise Infra("AuthCache.tla (repaired variant) violates %s" % mc.violated())
             states, trans = mc.distinct, mc.generated
+            fl = vlib.tlc("dataplane", "AuthCache", "AuthCache.cfg", workers=8, timeout=900, consts={"MaxSteps": 4, "Flight": '"global"'})
+            if not fl.violation:
+                raise Infra("AuthCache.tla: sharing reviews in flight across clusters is not refuted")
+            states, trans = states + fl.distinct, trans + fl.generated
             n = 300 if tier == "quick" else 5000
             gen = vlib.tlc("dataplane", "AuthCacheGen", "AuthCacheGen.cfg", workers=1, timeout=900, simulate="num=%d" % n, depth=15, tlc_seed=seed)
             hists = list({vlib.canon(h): h for h in gen.json_prints("HIST")}.values())
@@ -64,7 +71,7 @@ def main(tier, replay):
             scs = [to_scenario(i + 1, h, rng, with_moves=(i % 2 == 0)) for i, h in enumerate(hists)]
         binp = os.path.join(wd, "authh.test")
         vlib.go_test_build("./authh", binp)
-        traces, crashed = vlib.run_test_driver(binp, scs, wd, timeout=1500)
+        traces, crashed = vlib.run_test_driver(binp, scs, wd, timeout=300 if tier == "quick" else 2400)
         sc_by_id = {str(s["id"]): s for s in scs}
         for sid, tail in crashed.items():
             v.violation("crash-%s" % sid, {"scenario": sc_by_id[sid], "what": "crash", "stderr_tail": tail})
@@ -94,8 +101,8 @@ def main(tier, replay):
         calls = [e for t in tl for e in t["events"] if e["k"] == "call"]
         cov = {"states": states + tv.distinct, "transitions": trans + tv.generated, "traces_validated_against_impl": len(tl) - len(rejected),
                "samples": [tl[0]["events"][-6:]], "evaluations": len(calls), "distinct_nontrivial": len({vlib.canon(t["events"]) for t in tl}),
-               "rule": "one evaluation = one AuthenticateToken / Authorize call of the real webhooks; histories: TLC -simulate over AuthCache.tla (3 hosts incl. an alias, 2 clusters, 2 keys, answer changes, TTL expiry, readiness flips; alias moves in half of them)",
-               "calls_allowed": sum(1 for c in calls if c["v"] == "allow"), "calls_from_cache": sum(1 for c in calls if not c["sentTo"] and c["v"] != "error"),
+               "rule": "one evaluation = one AuthenticateToken / Authorize call of the real webhooks; histories: TLC -simulate over AuthCache.tla (3 hosts incl. an alias, 2 clusters, 2 keys, answer changes, TTL expiry, readiness flips, PAIRS of overlapping requests with the same key - the first one's review held in flight at its cluster -; alias moves in half of them)",
+               "calls_allowed": sum(1 for c in calls if c["v"] == "allow"), "calls_overlapping_a_held_review": sum(1 for c in calls if c.get("overlapped")), "calls_from_cache": sum(1 for c in calls if not c["sentTo"] and c["v"] != "error"),
                "checker_cmd": "tlc AuthCache.tla (FromOwner); tlc -simulate AuthCacheGen.tla; tlc TraceAuth.tla", "exhaustive": False}
         vlib.write_evidence(PROP, tier, "model_checking", cov, time.time() - t0, len(v.violations),
                             ["the cluster provider is a stub (host -> owner -> per-cluster fake clientset); TokenReview / SubjectAccessReview are answered by reactors from a scripted table",
